@@ -451,6 +451,27 @@ class Acceptor(object):
             # specified by any property: trace checking ends here, the end-of-run checks
             # (exit code, streams, logger) stay in force
             self.p.notes["hook_interrupt"] = ev["name"]
+            # C13: the scopes the interrupt cuts short still end: their cleanups run, innermost
+            # scope first, LIFO within a scope, each exactly once
+            inner = [cid for lay in reversed(self.layers[1:]) for cid in reversed(lay[1])]
+            # ... and the test run's own scope ends last (with what after_all still registers)
+            root = list(self.layers[0][1]) if self.layers else []
+            for e in self.evs[self.i:]:
+                for d in e.get("all_did", []):
+                    if d[0] == "cleanup" and d[2] != "fixture_plain" and \
+                            not self.hist["cleanups"].get(d[1], {}).get("setup_raises"):
+                        root.append(d[1])
+            inner = inner + list(reversed(root))
+            innerset = set(inner)
+            rest = [e["cid"] for e in self.evs[self.i:] if e["kind"] == "cleanup" and e["cid"] in innerset]
+            if rest != inner and not self.p.dead:
+                self.p.violations.append({
+                    "rules": [("C13", "cleanup-missing")],
+                    "key": "after-interrupt-in-hook:%s" % ("step-hook" if ev["name"].endswith("_step") else
+                                                          ev["name"].split("_", 1)[0] + "-hook"),
+                    "detail": {"hook": _evdesc(ev), "model": inner, "observed": rest,
+                               "layers": [l[0] for l in self.layers]},
+                    "seq": ev["seq"]})
             self.p.dead = True
 
     def barrier(self, eid, hint):
